@@ -147,3 +147,15 @@ func Harness_C16_RejectPaddedRealKey() {
 	verifrt.Reach("checked")
 	verifrt.Assert(err != nil, "a coordinate of the wrong width is rejected even when it denotes a point on the curve")
 }
+
+// Harness_C16_RejectEd25519Width: an Ed25519 JWK whose x is not exactly 32 bytes (0, 31, 33, 64 arbitrary bytes) is
+// rejected by the JWK reader and by GetED25519PublicKey.
+func Harness_C16_RejectEd25519Width() {
+	n := []int{0, 31, 33, 64}[verifrt.Choose("width", 4)]
+	x := verifrt.AnyBytes("x", n)
+	jwk := &jws.JWK{Kty: "OKP", Crv: "Ed25519", X: base64.RawURLEncoding.EncodeToString(x)}
+	_, err := parseJWK(jwk)
+	_, err2 := jwsutil.GetED25519PublicKey(jwk)
+	verifrt.Reach("answered")
+	verifrt.Assert(err != nil && err2 != nil, "an Ed25519 JWK whose x is not 32 bytes is rejected")
+}
